@@ -15,5 +15,6 @@ func controlsC15() []Control {
 		{Name: "engine hook no longer drives the deadline updater", Expect: "R4", Mutate: replaceIn("(*tableEngine).updateGameState", "\t\tte.updateCurrentActionEndAt(event, gs)\n", "", 0)},
 		{Name: "river is not a timed round", Expect: "R3", Mutate: replaceIn("(*tableEngine).updateCurrentActionEndAt", "GameRound_Turn, GameRound_River}", "GameRound_Turn}", 0)},
 		{Name: "a bet offer is not a wager request", Expect: "R3", Mutate: replaceIn("(*tableEngine).updateCurrentActionEndAt", "WagerAction_Fold, WagerAction_Bet}", "WagerAction_Fold}", 0)},
+		{Name: "a refused move puts the current state on the channel again", Expect: "R5", Mutate: replaceIn("(*game).Check", "if err := g.validatePlayMove(playerIdx); err != nil {", "if err := g.validatePlayMove(playerIdx); err != nil {\n\t\tg.incomingStates <- g.gs", 0)},
 	}
 }
